@@ -109,9 +109,9 @@ def keyOf (kind : String) (sp : List Nat) : Option (String × String × Bool) :=
 def handleObj (ws : List String) : String :=
   match ws with
   | [entries, _src] =>
-    let rec go (es : List String) (m s : List String) (dev : Bool) : Option (List String × List String × Bool) :=
+    let rec go (es : List String) (m s : List String) (dev acc : Bool) : Option (List String × List String × Bool × Bool) :=
       match es with
-      | [] => some (m.reverse, s.reverse, dev)
+      | [] => some (m.reverse, s.reverse, dev, acc)
       | e :: r =>
         match e.splitOn "~" with
         | [kk, h] =>
@@ -119,12 +119,21 @@ def handleObj (ws : List String) : String :=
           | [kind, keykind], some sp =>
             match keyOf keykind sp with
             | some (km, ks, dv) =>
-              go r ((kind ++ ":" ++ bytesOut (km.toUTF8.toList.map (·.toNat))) :: m) ((kind ++ ":" ++ bytesOut (ks.toUTF8.toList.map (·.toNat))) :: s) (dev || dv)
+              -- FunctionLiteral.Source of an accessor: parseFunction sets it (statement.go:281), parseObjectProperty
+              -- (expression.go:267-299) does not — model: empty; spec: the text of the accessor definition
+              let text := (bytesToString? sp).getD ""
+              let srcSpec := if kind = "get" then ":" ++ bytesOut (("get " ++ text ++ " ( ) { }").toUTF8.toList.map (·.toNat))
+                             else if kind = "set" then ":" ++ bytesOut (("set " ++ text ++ " ( v ) { }").toUTF8.toList.map (·.toNat)) else ""
+              let srcModel := if kind = "value" then "" else ":"
+              go r ((kind ++ ":" ++ bytesOut (km.toUTF8.toList.map (·.toNat)) ++ srcModel) :: m)
+                   ((kind ++ ":" ++ bytesOut (ks.toUTF8.toList.map (·.toNat)) ++ srcSpec) :: s) (dev || dv) (acc || kind != "value")
             | none => none
           | _, _ => none
         | _ => none
-    match go (entries.splitOn ",") [] [] false with
-    | some (m, s, dev) => ",".intercalate m ++ " " ++ ",".intercalate s ++ " " ++ (if dev then "numeric_property_key" else "-")
+    match go (entries.splitOn ",") [] [] false false with
+    | some (m, s, dev, acc) =>
+      let ds := (if dev then ["numeric_property_key"] else []) ++ (if acc then ["accessor_source_empty"] else [])
+      ",".intercalate m ++ " " ++ ",".intercalate s ++ " " ++ (if ds.isEmpty then "-" else ",".intercalate ds)
     | none => "bad-request bad-request -"
   | _ => "bad-request bad-request -"
 
